@@ -444,8 +444,16 @@ class Passive(taps.Observer):
                 dst = kwargs.get(pname, args[pos] if len(args) > pos else None)
                 if isinstance(dst, np.ndarray):
                     tg.append(("dst", dst)); tids.add(id(dst))
-            if kwargs.get("copy", None) is False and name in ("nan_to_num",) and args and isinstance(args[0], np.ndarray):
+            copy_arg = b.arguments.get("copy", None) if b is not None else kwargs.get("copy", None)
+            if copy_arg is False and name in ("nan_to_num",) and args and isinstance(args[0], np.ndarray):
                 tg.append(("dst", args[0])); tids.add(id(args[0]))
+            if b is not None and b.arguments.get("overwrite_input") is True:
+                # documented permission to use the input array as scratch space (median, percentile, quantile, nan* variants):
+                # its contents afterwards are documented as undefined, so it is neither an input nor a target
+                first = next(iter(b.arguments.values()), None)
+                if isinstance(first, np.ndarray):
+                    tids.add(id(first))
+                    self._count("scratch-operand-not-judged:" + name)
             for i, o in enumerate(args):
                 if id(o) not in tids:
                     flatten(o, f"arg{i}", ins)
